@@ -4,8 +4,7 @@
 
   visit_Call: callee is a Lambda whose parameter count equals the number of POSITIONAL arguments
   (keywords are not looked at) → arguments visited in the current scope, bound in a new frame, body
-  visited, result returned.  Lambda callee with another count → node returned unchanged, children
-  unvisited.  Any other call → generic_visit.
+  visited, result returned.  Lambda callee with another count, and any other call → generic_visit.
   The substitution is NOT capture avoiding (known finding F22): an argument mentioning a name that
   a lambda inside the body binds is captured.
 -/
@@ -57,7 +56,9 @@ def resolveCalled (st : List Frame) : Expr → Expr
   | .call (.lam ps body) args kwn kwv =>
     if ps.length = args.length then
       resolveCalled (bindFrame ps (resolveCalledL st args) :: st) body
-    else .call (.lam ps body) args kwn kwv
+    else
+      -- cannot be inlined: generic_visit (the lambda's own parameters hide outer arguments)
+      .call (.lam ps (resolveCalled (hideFrame ps :: st) body)) (resolveCalledL st args) kwn (resolveCalledL st kwv)
   | .call f args kwn kwv => .call (resolveCalled st f) (resolveCalledL st args) kwn (resolveCalledL st kwv)
   | .lam ps b => .lam ps (resolveCalled (hideFrame ps :: st) b)
   | .sub v s => .sub (resolveCalled st v) (resolveCalled st s)
